@@ -109,104 +109,126 @@ func scenarioDist(t *traceWriter, rng *rand.Rand) {
 		wrv := &recVerifier{inner: wk.verif, vid: newVid("D"), t: t}
 		dw := &distWitness{answers: map[string][]byte{}}
 		var logs []config.Log
-		var wans, dans, lcfg []string
-		for i, l := range defs {
+		for _, l := range defs {
 			logs = append(logs, config.Log{ID: l.id, Origin: l.origin, Verifier: l.rv})
-			wa := witAnsKinds[(ci/7+i*3)%len(witAnsKinds)]
-			da := distAnsKinds[(ci+i)%len(distAnsKinds)]
-			if ci >= len(witAnsKinds)*len(distAnsKinds) {
-				wa = witAnsKinds[rng.Intn(len(witAnsKinds))]
-				da = distAnsKinds[rng.Intn(len(distAnsKinds))]
-				if rng.Intn(3) == 0 {
-					wa = "valid"
-				}
-			}
-			text := cpText(l.origin, 5, tr.root(5))
-			var raw []byte
-			switch wa {
-			case "valid":
-				raw = signNote(text, l.key.signer, wk.signer)
-			case "missing":
-				raw = nil
-			case "wrongLogKey":
-				other := keyA
-				if l.key.name == keyA.name {
-					other = keyB
-				}
-				raw = signNote(text, other.signer, wk.signer)
-			case "noWitSig":
-				raw = signNote(text, l.key.signer)
-			case "badWitSig":
-				raw = signNote(text, l.key.signer, forgedSigner{wk.signer.Name(), wk.signer.KeyHash(), rng})
-			case "corrupted":
-				raw = signNote(text, l.key.signer, wk.signer)
-				raw[rng.Intn(len(text))] ^= 0x20
-			case "otherLog":
-				o := defs[(i+1)%len(defs)]
-				if o == l {
-					raw = signNote(cpText("dist.example/elsewhere", 5, tr.root(5)), l.key.signer, wk.signer)
-				} else {
-					raw = signNote(cpText(o.origin, 5, tr.root(5)), o.key.signer, wk.signer)
-				}
-			case "twoWitSigs":
-				raw = signNote(text, l.key.signer, wk.signer, wk2.signer)
-			}
-			dw.answers[l.id] = raw
-			path := fmt.Sprintf("/distributor/v0/logs/%s/byWitness/%s/checkpoint", l.id, escapeRef(wk.signer.Name()))
-			stub.plan[path] = da
-			w := "!"
-			if raw != nil {
-				w = hx(raw)
-			}
-			wans = append(wans, w)
-			dans = append(dans, da)
-			lcfg = append(lcfg, fmt.Sprintf("%s:%s:%s:%d:%s", hx([]byte(l.id)), hx([]byte(l.origin)), hx([]byte(l.key.verif.Name())), l.key.verif.KeyHash(), l.rv.vid))
 		}
 		client := &http.Client{Timeout: 5 * time.Second}
 		d, err := rest.NewDistributor(srv.URL, client, logs, wrv, dw)
 		if err != nil {
 			panic(err)
 		}
-		hang := 0
-		var derr error
-		if !withDeadline(30*time.Second, func() { derr = d.DistributeOnce(context.Background()) }) {
-			hang = 1
+		// one Distributor lives through several rounds: in a later round the witness may hand out the SAME checkpoint
+		// text under a different signature block (nothing remembered from an earlier round may stand in for checking it)
+		rounds := 1
+		if rng.Intn(3) == 0 {
+			rounds = 2 + rng.Intn(2)
+		}
+		prevKind := map[int]string{}
+		for round := 0; round < rounds; round++ {
+			var wans, dans, lcfg []string
+			for i, l := range defs {
+				wa := witAnsKinds[(ci/7+i*3)%len(witAnsKinds)]
+				da := distAnsKinds[(ci+i)%len(distAnsKinds)]
+				if ci >= len(witAnsKinds)*len(distAnsKinds) {
+					wa = witAnsKinds[rng.Intn(len(witAnsKinds))]
+					da = distAnsKinds[rng.Intn(len(distAnsKinds))]
+					if rng.Intn(3) == 0 {
+						wa = "valid"
+					}
+				}
+				if round > 0 {
+					da = []string{"200", "200", "500", "conn"}[rng.Intn(4)]
+					if prevKind[i] == "valid" {
+						wa = []string{"noWitSig", "badWitSig", "wrongLogKey", "valid", "twoWitSigs"}[rng.Intn(5)]
+					} else {
+						wa = witAnsKinds[rng.Intn(len(witAnsKinds))]
+					}
+				}
+				prevKind[i] = wa
+				text := cpText(l.origin, 5, tr.root(5))
+				var raw []byte
+				switch wa {
+				case "valid":
+					raw = signNote(text, l.key.signer, wk.signer)
+				case "missing":
+					raw = nil
+				case "wrongLogKey":
+					other := keyA
+					if l.key.name == keyA.name {
+						other = keyB
+					}
+					raw = signNote(text, other.signer, wk.signer)
+				case "noWitSig":
+					raw = signNote(text, l.key.signer)
+				case "badWitSig":
+					raw = signNote(text, l.key.signer, forgedSigner{wk.signer.Name(), wk.signer.KeyHash(), rng})
+				case "corrupted":
+					raw = signNote(text, l.key.signer, wk.signer)
+					raw[rng.Intn(len(text))] ^= 0x20
+				case "otherLog":
+					o := defs[(i+1)%len(defs)]
+					if o == l {
+						raw = signNote(cpText("dist.example/elsewhere", 5, tr.root(5)), l.key.signer, wk.signer)
+					} else {
+						raw = signNote(cpText(o.origin, 5, tr.root(5)), o.key.signer, wk.signer)
+					}
+				case "twoWitSigs":
+					raw = signNote(text, l.key.signer, wk.signer, wk2.signer)
+				}
+				dw.answers[l.id] = raw
+				if raw != nil {
+					// ground truth for the oracle, whatever the distributor chooses to verify (or to skip)
+					_, _ = note.Open(raw, note.VerifierList(l.rv, wrv))
+				}
+				path := fmt.Sprintf("/distributor/v0/logs/%s/byWitness/%s/checkpoint", l.id, escapeRef(wk.signer.Name()))
+				stub.mu.Lock()
+				stub.plan[path] = da
+				stub.mu.Unlock()
+				w := "!"
+				if raw != nil {
+					w = hx(raw)
+				}
+				wans = append(wans, w)
+				dans = append(dans, da)
+				lcfg = append(lcfg, fmt.Sprintf("%s:%s:%s:%d:%s", hx([]byte(l.id)), hx([]byte(l.origin)), hx([]byte(l.key.verif.Name())), l.key.verif.KeyHash(), l.rv.vid))
+			}
+			hang := 0
+			var derr error
+			if !withDeadline(30*time.Second, func() { derr = d.DistributeOnce(context.Background()) }) {
+				hang = 1
+			}
+			stub.mu.Lock()
+			var puts, redirs []string
+			for _, l := range defs {
+				path := fmt.Sprintf("/distributor/v0/logs/%s/byWitness/%s/checkpoint", l.id, escapeRef(wk.signer.Name()))
+				p := "-"
+				if rec, ok := stub.puts[path]; ok {
+					p = hx([]byte(path)) + ":" + rec
+					delete(stub.puts, path)
+				}
+				puts = append(puts, p)
+				rd := "-"
+				if rec, ok := stub.redirs[path]; ok {
+					rd = rec
+					delete(stub.redirs, path)
+				}
+				redirs = append(redirs, rd)
+			}
+			extra := len(stub.puts)
+			stub.puts = map[string]string{}
+			stub.mu.Unlock()
+			e := "-"
+			if derr != nil {
+				e = strings.ReplaceAll(derr.Error(), " ", "_")
+			}
+			t.line("DS %s wname=%s wvhash=%d wvid=%s logs=%s wans=%s dans=%s hang=%d extra=%d round=%d => puts=%s redirs=%s err=%s",
+				s.id, hx([]byte(wk.signer.Name())), wk.signer.KeyHash(), wrv.vid, strings.Join(lcfg, ";"), strings.Join(wans, ";"), strings.Join(dans, ";"),
+				hang, extra, round, strings.Join(puts, ";"), strings.Join(redirs, ";"), e)
+			if hang == 1 {
+				break
+			}
 		}
 		srv.Close()
-		stub.mu.Lock()
-		var puts, redirs []string
-		for _, l := range defs {
-			path := fmt.Sprintf("/distributor/v0/logs/%s/byWitness/%s/checkpoint", l.id, escapeRef(wk.signer.Name()))
-			p := "-"
-			if rec, ok := stub.puts[path]; ok {
-				p = hx([]byte(path)) + ":" + rec
-				delete(stub.puts, path)
-			}
-			puts = append(puts, p)
-			rd := "-"
-			if rec, ok := stub.redirs[path]; ok {
-				rd = rec
-			}
-			redirs = append(redirs, rd)
-		}
-		extra := len(stub.puts)
-		stub.mu.Unlock()
-		e := "-"
-		if derr != nil {
-			e = strings.ReplaceAll(derr.Error(), " ", "_")
-		}
-		var kinds []string
-		for i := range defs {
-			kinds = append(kinds, (func() string {
-				for _, k := range witAnsKinds {
-					_ = k
-				}
-				return ""
-			})()+fmt.Sprint(i))
-		}
-		t.line("DS %s wname=%s wvhash=%d wvid=%s logs=%s wans=%s dans=%s hang=%d extra=%d => puts=%s redirs=%s err=%s",
-			s.id, hx([]byte(wk.signer.Name())), wk.signer.KeyHash(), wrv.vid, strings.Join(lcfg, ";"), strings.Join(wans, ";"), strings.Join(dans, ";"),
-			hang, extra, strings.Join(puts, ";"), strings.Join(redirs, ";"), e)
 		s.end()
 	}
 }
